@@ -36,7 +36,7 @@ def floors(tier):
     f = {"evals": {"q." + q: 500 for q in QUERIES}, "classes": {}}
     for c in ("eq:identical", "eq:perturbed-name", "eq:perturbed-label", "eq:perturbed-time", "eq:perturbed-count", "eq:other-type",
               "eq:foreign", "eq:symmetry-pair", "eq:textgrid-without-tiers", "validate:corrupt-span", "validate:corrupt-order", "validate:corrupt-out-of-span",
-              "validate:corrupt-degenerate", "validate:clean", "validate:error-mode-raises", "samples:on-boundary", "samples:ties",
+              "validate:corrupt-degenerate", "validate:corrupt-overlap", "validate:clean", "validate:error-mode-raises", "samples:on-boundary", "samples:ties",
               "invert:touching", "invert:empty", "invert:at-bounds", "overlap:all-relations", "find:regex", "find:substr", "fuzzy:tie", "requery-after-mutation"):
         f["classes"]["C15:" + c] = 30
     return f
@@ -786,7 +786,7 @@ def _workload(tier, rng, shard, nshards):
         # validate: clean, then corruptions through public attributes and the entry list
         call(t.validate, rng.choice(("silence", "warning", "error")))
         bad = t.new()
-        c = rng.choice(["span", "order", "out-of-span", "degenerate"])
+        c = rng.choice(["span", "order", "out-of-span", "degenerate", "overlap"])
         if c == "span":
             # the span is pulled inside the outermost entry: by a clear margin, by one rounding step, or by ~1e-14 relative
             if rng.random() < 0.5:
@@ -804,6 +804,12 @@ def _workload(tier, rng, shard, nshards):
         elif c == "out-of-span":
             bad._entries.append(Interval(hi + 1.0, hi + 2.0, "o") if kind == "I" else Point(hi + 1.0, "o"))
             REC.cls("C15:validate:corrupt-out-of-span")
+        elif c == "overlap" and kind == "I" and len(bad._entries) >= 2:
+            # entries stay ordered by start, but one reaches into its successor
+            i = rng.randrange(len(bad._entries) - 1)
+            e, nxt = bad._entries[i], bad._entries[i + 1]
+            bad._entries[i] = Interval(e[0], rng.choice([(nxt[0] + nxt[1]) / 2, nxt[1], math.nextafter(nxt[0], math.inf)]), e[2])
+            REC.cls("C15:validate:corrupt-overlap")
         elif c == "degenerate" and kind == "I" and len(bad._entries):
             e = bad._entries[0]
             bad._entries[0] = Interval(e[1], e[0], e[2]) if rng.random() < 0.5 else Interval(e[0], e[0], e[2])
